@@ -8,7 +8,8 @@ Model of /repo/lib/rac/chunk_writer.go (C13), function by function.  Core Lean o
   counter; the `failAt`-th underlying call (Write / Read / Seek, on either)
   fails once with the error `Err.fault` and has no effect.
 * `gather` is written for the REPAIRED code (fixes/C13-gather-lone-branch.patch):
-  a lone trailing branch node is not wrapped in a single-child branch.
+  a lone trailing branch node is not wrapped in a single-child branch; so is
+  `resourceToTag` (fixes/C13-long-codec-resource-tag.patch).
 -/
 import WuffsVerif.Model.Rac.WriteBuffer
 
@@ -149,16 +150,20 @@ def leaf (dRangeSize cOffsetCLength secondary tertiary codec : Nat) : WNode :=
   .mk dRangeSize [] [] cOffsetCLength secondary tertiary codec
 end WNode
 
-/-- `resourceToTag` (the tag byte, before `<< 56`) -/
-def resourceToTagByte (resources : List Nat) (r : Nat) : Nat :=
+/-- `resourceToTag` (the tag byte, before `<< 56`).  REPAIRED
+(fixes/C13-long-codec-resource-tag.patch): a resource's tag is the index of its
+*element*; with a Long Codec the Codec Element is element 0, so `tagBase = 1`.
+The pinned code returned the index within `resources` (i.e. `tagBase = 0` always). -/
+def resourceToTagByte (resources : List Nat) (r : Nat) (tagBase : Nat) : Nat :=
   if r != 0 then
     match resources.idxOf? r with
-    | some i => i
+    | some i => i + tagBase
     | none => 0xFF
   else 0xFF
 
 /-- `resourceToTag` -/
-def resourceToTag (resources : List Nat) (r : Nat) : Nat := resourceToTagByte resources r <<< 56
+def resourceToTag (resources : List Nat) (r : Nat) (tagBase : Nat) : Nat :=
+  resourceToTagByte resources r tagBase <<< 56
 
 /-! ### gather / makeBranch -/
 
@@ -269,18 +274,18 @@ deriving Repr, Inhabited
 def tagFF : Nat := 0xFF <<< 56
 
 /-- the `DPtr|0|TTag` segments of the non-resource children, and the final `dPtr` -/
-def dptrSegments (resources : List Nat) : List WNode → Nat → List Bytes × Nat
+def dptrSegments (resources : List Nat) (tagBase : Nat) : List WNode → Nat → List Bytes × Nat
   | [], dPtr => ([], dPtr)
   | o :: os, dPtr =>
-    let tag := if o.isBranch then 0xFE <<< 56 else resourceToTag resources o.tertiary
-    let (rest, dMax) := dptrSegments resources os (dPtr + o.dRangeSize)
+    let tag := if o.isBranch then 0xFE <<< 56 else resourceToTag resources o.tertiary tagBase
+    let (rest, dMax) := dptrSegments resources tagBase os (dPtr + o.dRangeSize)
     (putU64LE (dPtr ||| tag) :: rest, dMax)
 
 /-- the `CPtr|CLen|STag` segments of the non-resource children -/
-def cptrSegments (nw : NodeWriter) (resources : List Nat) (children : List WNode) : List Bytes :=
+def cptrSegments (nw : NodeWriter) (resources : List Nat) (tagBase : Nat) (children : List WNode) : List Bytes :=
   children.map fun o =>
     let col := if o.isBranch then o.cOffsetCLength + nw.indexCOffset else o.cOffsetCLength + nw.dataCOffset
-    putU64LE (col ||| resourceToTag resources o.secondary)
+    putU64LE (col ||| resourceToTag resources o.secondary tagBase)
 
 /-- the bytes of one branch node, as `writeIndex` lays them out in `w.buffer[:size]` -/
 def encodeNode (nw : NodeWriter) (n : WNode) : Except Err Bytes :=
@@ -290,13 +295,14 @@ def encodeNode (nw : NodeWriter) (n : WNode) : Except Err Bytes :=
   if arity > 0xFF then .error .internalArityIsTooLarge else
   let seg0 : List Bytes := if long then [putU64LE 0xFD00000000000000] else []
   let segR : List Bytes := n.resources.map fun _ => putU64LE (0 ||| tagFF)
-  let (segC, dPtr) := dptrSegments n.resources n.children 0
+  let tagBase := long.toNat
+  let (segC, dPtr) := dptrSegments n.resources tagBase n.children 0
   let codecHighByte := n.codec &&& 0xFF00000000000000
   let segDMax := putU64LE (dPtr ||| codecHighByte)
   let seg1 : List Bytes := if long then [putU64LE (n.codec &&& 0x00FFFFFFFFFFFFFF)] else []
   let segCR : List Bytes := n.resources.map fun res =>
     putU64LE ((nw.resourcesCOffCLens.getD res 0 + nw.dataCOffset) ||| tagFF)
-  let segCC := cptrSegments nw n.resources n.children
+  let segCC := cptrSegments nw n.resources tagBase n.children
   let segCMax := putU64LE (nw.cFileSize ||| (0x01 <<< 48) ||| (arity <<< 56))
   let buf : Bytes := (seg0 ++ segR ++ segC ++ [segDMax] ++ seg1 ++ segCR ++ segCC ++ [segCMax]).flatten
   let body := buf.drop 6
